@@ -121,6 +121,7 @@ fn render(a: &J) -> String {
         "infix" | "cmp" => format!("({} {} {})", e[0], s, e[1]),
         "call" => format!("{}({})", s, e.join(", ")),
         "meth" => format!("{}.{}({})", e[0], s, e[1..].join(", ")),
+        "let" => format!("let {} = {}; {}", s, e[0], e[1]),
         k => panic!("unknown ast kind {k}"),
     }
 }
@@ -153,6 +154,7 @@ fn build_term(t: &J) -> Tree {
             }
         }
         "shape" => build_shape(f, t["fl"].as_array().unwrap()),
+        "remap" => a[0].remap_xyz(a[1].clone(), a[2].clone(), a[3].clone()),
         o => panic!("term kind {o}"),
     }
 }
